@@ -189,11 +189,12 @@ impl ConnectionState {
                 };
                 *self = ConnectionState::ServerClosing(close);
 
+                // Consumers first; see the comment on Basic.CancelOk below.
                 for (_, mut slot) in inner.chan_slots.drain() {
-                    send(&slot.tx, Err(make_err()))?;
                     for (_, tx) in slot.consumers.drain() {
                         send(&tx, ConsumerMessage::ServerClosedConnection(make_err()))?;
                     }
+                    send(&slot.tx, Err(make_err()))?;
                 }
             }
             // Server ack for client-initiated connection close.
@@ -208,10 +209,10 @@ impl ConnectionState {
                 *self = ConnectionState::ClientClosed;
 
                 for (_, mut slot) in inner.chan_slots.drain() {
-                    send(&slot.tx, Err(Error::ClientClosedConnection))?;
                     for (_, tx) in slot.consumers.drain() {
                         send(&tx, ConsumerMessage::ClientClosedConnection)?;
                     }
+                    send(&slot.tx, Err(Error::ClientClosedConnection))?;
                 }
             }
             // Server is blocking publishes due to an alarm on its side (e.g., low mem)
@@ -245,10 +246,11 @@ impl ConnectionState {
                     code: close.reply_code,
                     message: close.reply_text.clone(),
                 };
-                send(&slot.tx, Err(make_err()))?;
+                // Consumers first; see the comment on Basic.CancelOk below.
                 for (_, tx) in slot.consumers.drain() {
                     send(&tx, ConsumerMessage::ServerClosedChannel(make_err()))?;
                 }
+                send(&slot.tx, Err(make_err()))?;
                 inner.push_method(n, AmqpChannel::CloseOk(ChannelCloseOk {}));
             }
             // Server ack for client-initiated channel close.
@@ -259,15 +261,15 @@ impl ConnectionState {
                 // an error to get a CloseOk for a nonexistent slot, since the server is
                 // confirming that a channel is gone (and we don't have it anymore anyway).
                 if let Ok(mut slot) = slot_remove(inner, n) {
+                    for (_, tx) in slot.consumers.drain() {
+                        send(&tx, ConsumerMessage::ClientClosedChannel)?;
+                    }
                     send(
                         &slot.tx,
                         Ok(ChannelMessage::Method(AMQPClass::Channel(
                             AmqpChannel::CloseOk(close_ok),
                         ))),
                     )?;
-                    for (_, tx) in slot.consumers.drain() {
-                        send(&tx, ConsumerMessage::ClientClosedChannel)?;
-                    }
                 }
             }
             // Server ack for consume request.
